@@ -12,5 +12,19 @@ case "$ID" in
     export VERIF_E1NATIVE=$B/e1native VERIF_REWRITES=$B/rewrites.json VERIF_TREE_HASH=$(basename $B)
     exec $B/e1 run $ID --tier $TIER ;;
   *)
-    echo "no check for $ID" >&2; exit 2 ;;
+    lid=$(echo $ID | tr A-Z a-z)
+    [ -d seq/$lid ] || { echo "no check for $ID" >&2; exit 2; }
+    B=${VERIF_CACHE:-/var/tmp/verif-cache}/seq; mkdir -p $B
+    cd seq
+    MF=""
+    if [ "$VERIF_REPO" != /repo ]; then
+      sed "s#=> /repo#=> $VERIF_REPO#" go.mod > $B/alt.$$.mod; cp go.sum $B/alt.$$.sum; MF="-modfile=$B/alt.$$.mod"
+    fi
+    if ! go build $MF -o $B/seq-$lid.$$ ./$lid; then rm -f $B/alt.$$.*; echo "INCONCLUSIVE: build of the check against $VERIF_REPO failed" >&2; exit 2; fi
+    rm -f $B/alt.$$.*
+    cd /verif
+    export VERIF_TREE_HASH=$(scripts/treehash.sh)
+    $B/seq-$lid.$$ --tier $TIER "$@"; rc=$?
+    rm -f $B/seq-$lid.$$
+    exit $rc ;;
 esac
